@@ -35,12 +35,12 @@ Definition hk_update (fault : bool) (now : gtime) (s : hstate) : hstate :=
          | None => mkHS (hs_repo s) (mkHook None false true false) t0
          end.
 (* refresh (repair): if the cached task is still the next one only the cache is renewed and the timer is
-   left alone; otherwise (or on failure) a full update (whose own GetNext is a second call: a one-shot fault
-   has been consumed by then) *)
+   left alone; otherwise (or on failure) a full update. A fault lasts for the whole operation: the full
+   update's own GetNext fails as well, and the error must be reported. *)
 Definition hk_refresh (fault : bool) (now : gtime) (s : hstate) : hstate :=
   let h := hs_hook s in
   if negb (hk_started h) then s
-  else if fault then hk_update false now s
+  else if fault then hk_update true now s
   else match get_next (hs_repo s), hk_cached h with
        | Some n, Some c =>
          if String.eqb (t_id n) (t_id c)
